@@ -48,17 +48,25 @@ func (c *Conversation) fragment(data encodedMessage, fraglen uint16) []ValidMess
 	}
 
 	fakeHeader := c.version.fragmentPrefix(1, 1, c.ourInstanceTag, c.theirInstanceTag)
-	realFraglen := (fraglen - uint16(len(fakeHeader))) - 1
+
+	// Messages can be longer than 65535 bytes, and the fragment size can be
+	// smaller than the fragment header: none of this fits 16 bit arithmetic
+	realFraglen := int(fraglen) - len(fakeHeader) - 1
 
 	if realFraglen <= 0 {
 		return []ValidMessage{ValidMessage(data)}
 	}
 
-	numFragments := (l / int(realFraglen)) + 1
+	numFragments := (l / realFraglen) + 1
 	ret := make([]ValidMessage, numFragments)
 	for i := 0; i < numFragments; i++ {
+		start := i * realFraglen
+		end := start + realFraglen
+		if end > l {
+			end = l
+		}
 		prefix := c.version.fragmentPrefix(i, numFragments, c.ourInstanceTag, c.theirInstanceTag)
-		ret[i] = append(append(prefix, fragmentData(data, i, realFraglen, uint16(l))...), fragmentSeparator[0])
+		ret[i] = append(append(prefix, data[start:end]...), fragmentSeparator[0])
 	}
 	return ret
 }
